@@ -85,6 +85,29 @@ static const std::string& bz_boundary_payload(int d = 0) {
     return c;
 }
 
+// gzip member whose compressed size is 8192 k + d (8192 = zlib's gz* input buffer: the member ends d bytes after a buffer load)
+static const std::string& gz_boundary_payload(int d, int k) {
+    static std::string cached[5][2];
+    std::string& c = cached[d + 2][k - 1];
+    if (!c.empty()) return c;
+    vp::Rng r{99};
+    std::string base;
+    for (size_t i = 0; i < 17000; ++i) base += static_cast<char>(r.next() & 0xff);
+    const size_t want = static_cast<size_t>(8192 * k + d);
+    const size_t overhead = gz_compress(base.substr(0, 4000), 6).size() - 4000;  // incompressible: stored, plus header and trailer
+    size_t len = want - overhead;
+    for (int tries = 0; tries < 64 && len > 0 && len < base.size(); ++tries) {
+        const size_t sz = gz_compress(base.substr(0, len), 6).size();
+        if (sz == want) {
+            c = base.substr(0, len);
+            return c;
+        }
+        len = sz < want ? len + (want - sz) : len - (sz - want);
+    }
+    c = "x";
+    return c;
+}
+
 static size_t part_size(Src& s) {
     static const size_t fixed[] = {0, 1, 100, 10239, 10240, 10241, 20480, 4999, 5000, 5001};
     // "--parts small": the quick run of the build with the real 1 MiB pieces stays with small payloads (one read call per stream, which
@@ -175,20 +198,27 @@ static void multi_stream(Src& s) {
     size_t k = 1 + s.draw(6);
     // one bzip2 case in eight: one or two streams that all end on a read-ahead block, so that the file ends there as well (the last
     // fread() of libbz2 returns a full block and has not seen the end of the file yet)
-    const bool aligned_file = comp == osmium::io::file_compression::bzip2 && s.chance(1, 8);
+    const bool aligned_file = s.chance(1, 8);  // (gzip: the same with zlib's 8192-byte input buffer)
     if (aligned_file) k = 1 + s.draw(2);
     std::vector<Stream> streams;
     std::string desc = std::string{cname(comp)} + SRC_NAME[from_fd] + " streams:";
     bool used_boundary = false;
     for (size_t i = 0; i < k; ++i) {
         Stream st;
-        if (aligned_file || (comp == osmium::io::file_compression::bzip2 && s.chance(1, 6))) {
+        if (comp == osmium::io::file_compression::bzip2 && (aligned_file || s.chance(1, 6))) {
             static const int ds[] = {0, 0, 1, -1, 2, -2};
             st.plain = bz_boundary_payload(aligned_file ? 0 : ds[s.draw(6)]);
             used_boundary = true;
             st.comp = bz_compress(st.plain, 9);
             desc += " [bz2 stream of exactly " + std::to_string(st.comp.size()) + " compressed bytes]";
             vp::count("bz2_stream_size_mod_5000_is_" + std::to_string(st.comp.size() % 5000));
+        } else if (comp == osmium::io::file_compression::gzip && (aligned_file || s.chance(1, 6))) {
+            static const int ds[] = {0, 0, 1, -1, 2, -2};
+            st.plain = gz_boundary_payload(aligned_file ? 0 : ds[s.draw(6)], 1 + static_cast<int>(s.draw(2)));
+            used_boundary = true;
+            st.comp = gz_compress(st.plain, 6);
+            desc += " [gzip member of exactly " + std::to_string(st.comp.size()) + " compressed bytes]";
+            vp::count("gzip_member_size_mod_8192_is_" + std::to_string(st.comp.size() % 8192));
         } else {
             bool compressible = s.boolean();
             st.plain = payload(s, part_size(s), compressible);
@@ -494,7 +524,7 @@ VP_BUILTIN(F33_gzip_file_cut_where_zlibs_output_buffer_is_full) {
     }
 }
 
-VP_MAIN(prop, "generated payloads (part sizes 0, 1, 100, 10239..10241, k*input_buffer_size+-2, bzip2 streams whose compressed size is 5000k-2..5000k+2, random; compressible and "
+VP_MAIN(prop, "generated payloads (part sizes 0, 1, 100, 10239..10241, k*input_buffer_size+-2, bzip2 streams whose compressed size is 5000k-2..5000k+2, gzip members of 8192k-2..8192k+2 compressed bytes, whole files that end on such a boundary, random; compressible and "
               "incompressible) split into 1..6 separately compressed streams (zlib / libbz2 one-shot APIs) x {gzip, bzip2} x {regular file, memory buffer, pipe that delivers one stream per piece or generated short reads}; consumed like the read thread "
               "does (until the first empty chunk, then close); every truncation for files <= 64 bytes, 24 generated cuts otherwise (uniform, near stream boundaries, in the header); 12 "
               "single-byte corruptions; the library's own compressors with random chunking; whole-Reader runs on multi-stream OPL. Oracle: concatenation of chunks == reference payload, "
